@@ -19,4 +19,10 @@ PROPS = {
     "C11": _p(4000, 60000),
     "C13": _p(4000, 60000),
     "C18": _p(4000, 60000),
+    "C03": _p(4000, 60000, tb=["url.Parse / ResolveReference (dot segments) are stdlib glue"]),
+    "C04": _p(4000, 60000, tb=["q-value normaliser classes (Accept*, TE) are not generated: glue"]),
+    "C07": _p(4000, 60000),
+    "C08": _p(4000, 60000),
+    "C09": _p(4000, 60000),
+    "C19": _p(1500, 20000),
 }
